@@ -153,3 +153,8 @@ package db
 //@   pure
 //@ func Iterator.Release
 //@   pure
+
+// nested bucket lookup/creation: a bucket on success (assumed of Bucket.NewBucket implementations)
+//@ func GetOrCreateBucket
+//@   trusted
+//@   ensures err == nil ==> b != nil
